@@ -9,7 +9,7 @@ from typing import OrderedDict, List, Union
 import numpy as np
 
 # Midgard imports
-from midgard.dev import log
+from midgard.dev import log, plugins
 from midgard.writers._writers import get_field
 
 # CSV file example:
@@ -22,6 +22,7 @@ from midgard.writers._writers import get_field
 # 2023-01-01 03:41:24,59945.153958,2243,13302.000,E12,E1,16.12,3.17,5.67,44.06,1.18,44.22
 # ----+----1----+----2----+----3----+----4----+----5----+----6----+----7----+----8----+----9----+----0----+----1----+-
 
+@plugins.register
 def csv_(
         dset: "Dataset",
         file_path: Union[str, PosixPath],
